@@ -36,6 +36,78 @@ func parseIdxList(s string) []uint64 {
 	return out
 }
 
+var binopIR = map[string]func(x, y value.Value) value.Value{
+	"add": func(x, y value.Value) value.Value { return ir.NewAdd(x, y) }, "fadd": func(x, y value.Value) value.Value { return ir.NewFAdd(x, y) },
+	"sub": func(x, y value.Value) value.Value { return ir.NewSub(x, y) }, "fsub": func(x, y value.Value) value.Value { return ir.NewFSub(x, y) },
+	"mul": func(x, y value.Value) value.Value { return ir.NewMul(x, y) }, "fmul": func(x, y value.Value) value.Value { return ir.NewFMul(x, y) },
+	"udiv": func(x, y value.Value) value.Value { return ir.NewUDiv(x, y) }, "sdiv": func(x, y value.Value) value.Value { return ir.NewSDiv(x, y) },
+	"fdiv": func(x, y value.Value) value.Value { return ir.NewFDiv(x, y) }, "urem": func(x, y value.Value) value.Value { return ir.NewURem(x, y) },
+	"srem": func(x, y value.Value) value.Value { return ir.NewSRem(x, y) }, "frem": func(x, y value.Value) value.Value { return ir.NewFRem(x, y) },
+	"shl": func(x, y value.Value) value.Value { return ir.NewShl(x, y) }, "lshr": func(x, y value.Value) value.Value { return ir.NewLShr(x, y) },
+	"ashr": func(x, y value.Value) value.Value { return ir.NewAShr(x, y) }, "and": func(x, y value.Value) value.Value { return ir.NewAnd(x, y) },
+	"or": func(x, y value.Value) value.Value { return ir.NewOr(x, y) }, "xor": func(x, y value.Value) value.Value { return ir.NewXor(x, y) },
+}
+
+var binopExpr = map[string]func(x, y constant.Constant) constant.Constant{
+	"add": func(x, y constant.Constant) constant.Constant { return constant.NewAdd(x, y) }, "sub": func(x, y constant.Constant) constant.Constant { return constant.NewSub(x, y) },
+	"mul": func(x, y constant.Constant) constant.Constant { return constant.NewMul(x, y) }, "shl": func(x, y constant.Constant) constant.Constant { return constant.NewShl(x, y) },
+	"lshr": func(x, y constant.Constant) constant.Constant { return constant.NewLShr(x, y) }, "ashr": func(x, y constant.Constant) constant.Constant { return constant.NewAShr(x, y) },
+	"and": func(x, y constant.Constant) constant.Constant { return constant.NewAnd(x, y) }, "or": func(x, y constant.Constant) constant.Constant { return constant.NewOr(x, y) },
+	"xor": func(x, y constant.Constant) constant.Constant { return constant.NewXor(x, y) },
+}
+
+var castExpr = map[string]func(x constant.Constant, t types.Type) constant.Constant{
+	"trunc": func(x constant.Constant, t types.Type) constant.Constant { return constant.NewTrunc(x, t) }, "zext": func(x constant.Constant, t types.Type) constant.Constant { return constant.NewZExt(x, t) },
+	"sext": func(x constant.Constant, t types.Type) constant.Constant { return constant.NewSExt(x, t) }, "fptrunc": func(x constant.Constant, t types.Type) constant.Constant { return constant.NewFPTrunc(x, t) },
+	"fpext": func(x constant.Constant, t types.Type) constant.Constant { return constant.NewFPExt(x, t) }, "fptoui": func(x constant.Constant, t types.Type) constant.Constant { return constant.NewFPToUI(x, t) },
+	"fptosi": func(x constant.Constant, t types.Type) constant.Constant { return constant.NewFPToSI(x, t) }, "uitofp": func(x constant.Constant, t types.Type) constant.Constant { return constant.NewUIToFP(x, t) },
+	"sitofp": func(x constant.Constant, t types.Type) constant.Constant { return constant.NewSIToFP(x, t) }, "ptrtoint": func(x constant.Constant, t types.Type) constant.Constant { return constant.NewPtrToInt(x, t) },
+	"inttoptr": func(x constant.Constant, t types.Type) constant.Constant { return constant.NewIntToPtr(x, t) }, "bitcast": func(x constant.Constant, t types.Type) constant.Constant { return constant.NewBitCast(x, t) },
+	"": func(x constant.Constant, t types.Type) constant.Constant { return constant.NewBitCast(x, t) },
+	"addrspacecast": func(x constant.Constant, t types.Type) constant.Constant { return constant.NewAddrSpaceCast(x, t) },
+}
+
+// buildExpr builds the CONSTANT EXPRESSION of the kind (operands: undef constants of the given types); nil when the kind has no constant-expression form.
+func buildExpr(kind string, ts []types.Type) constant.Constant {
+	cs := make([]constant.Constant, len(ts))
+	for i, t := range ts {
+		cs[i] = constant.NewUndef(t)
+	}
+	k, arg := kind, ""
+	if i := strings.IndexByte(kind, ':'); i >= 0 {
+		k, arg = kind[:i], kind[i+1:]
+	}
+	switch k {
+	case "fneg":
+		return constant.NewFNeg(cs[0])
+	case "add", "fadd", "xor":
+		op := k
+		if arg != "" {
+			op = arg
+		}
+		if f, ok := binopExpr[op]; ok {
+			return f(cs[0], cs[1])
+		}
+	case "extractelement":
+		return constant.NewExtractElement(cs[0], cs[1])
+	case "insertelement":
+		return constant.NewInsertElement(cs[0], cs[1], cs[2])
+	case "shufflevector":
+		return constant.NewShuffleVector(cs[0], cs[1], cs[2])
+	case "cast":
+		if f, ok := castExpr[arg]; ok {
+			return f(cs[0], ts[1])
+		}
+	case "icmp":
+		return constant.NewICmp(enum.IPredEQ, cs[0], cs[1])
+	case "fcmp":
+		return constant.NewFCmp(enum.FPredOEQ, cs[0], cs[1])
+	case "select":
+		return constant.NewSelect(cs[0], cs[1], cs[2])
+	}
+	return nil
+}
+
 // buildIR builds the instruction through the public constructors; operands are parameters of the given types.
 func buildIR(kind string, ts []types.Type) value.Value {
 	ps := make([]value.Value, len(ts))
@@ -49,12 +121,15 @@ func buildIR(kind string, ts []types.Type) value.Value {
 	switch k {
 	case "fneg":
 		return ir.NewFNeg(ps[0])
-	case "add":
-		return ir.NewAdd(ps[0], ps[1])
-	case "fadd":
-		return ir.NewFAdd(ps[0], ps[1])
-	case "xor":
-		return ir.NewXor(ps[0], ps[1])
+	case "add", "fadd", "xor":
+		op := k
+		if arg != "" {
+			op = arg
+		}
+		if f, ok := binopIR[op]; ok {
+			return f(ps[0], ps[1])
+		}
+		panic("harness: unknown binary operation " + op)
 	case "extractelement":
 		return ir.NewExtractElement(ps[0], ps[1])
 	case "insertelement":
@@ -158,7 +233,11 @@ func asmText(kind string, ts []types.Type, nm map[string]*types.StructType) (str
 	case "fneg":
 		inst = "%r = fneg " + tv(0)
 	case "add", "fadd", "xor":
-		inst = fmt.Sprintf("%%r = %s %s, %%p1", k, tv(0))
+		op := k
+		if arg != "" {
+			op = arg
+		}
+		inst = fmt.Sprintf("%%r = %s %s, %%p1", op, tv(0))
 	case "extractelement":
 		inst = fmt.Sprintf("%%r = extractelement %s, %s", tv(0), tv(1))
 	case "insertelement":
@@ -445,6 +524,14 @@ func init() {
 	reg("typ.ir", func(a []string) string {
 		nm := map[string]*types.StructType{}
 		return hexOut([]byte(buildIR(a[0], parseTys(nm, a[1:])).Type().String()))
+	})
+	reg("typ.expr", func(a []string) string {
+		nm := map[string]*types.StructType{}
+		c := buildExpr(a[0], parseTys(nm, a[1:]))
+		if c == nil {
+			return "skip"
+		}
+		return hexOut([]byte(c.Type().String()))
 	})
 	reg("typ.asm", func(a []string) string {
 		nm := map[string]*types.StructType{}
